@@ -83,5 +83,5 @@ static void prop(Tape &t, Ctx &c) {
     if (rc >= 0 || deep) c.nontrivial(fmt("priv:%u:%d:%llx", api, rc >= 0, (unsigned long long) shape));
     if (rc >= 0) c.sample(fmt("%s len=%zu pass=%s rc=%d type=%d", names[api], in.n, pass, rc, type));
 }
-VF_TARGET("C09.privkey_any", prop, 2048, 30)
+VF_TARGET("C09.privkey_any", prop, 2048, 45)
 namespace vf { void vf_global_init(int, char **) { psCryptoOpen(PSCRYPTO_CONFIG); } }
